@@ -8,14 +8,17 @@
    Facts of the code that matter (all transcribed, none assumed):
    * the source MAC must be unicast (bit 0 of byte 6 clear), EtherType >= 1536;
    * EtherType 0x0800: ip4 = ether[14:]; IsValid (since /repo 38ef1da): len >= 20, IHL >= 20,
-     len >= IHL, TotalLen >= IHL, len >= TotalLen — the version nibble is NOT checked;
+     len >= IHL, TotalLen >= IHL, len >= TotalLen — the version nibble is not checked there;
    * EtherType 0x86dd: ip6 = ether[14:]; IsValid (since /repo 28b2fc9): len >= 40 and
-     PayloadLen+40 <= len (trailing bytes allowed) — the version nibble is not checked;
-   * the ICMP message is frame.Payload() = ether[14+IHL:] resp. ether[54:], i.e. it extends to the
-     END OF THE ETHERNET FRAME, not to IP4.TotalLen / IP6.PayloadLen;
-   * ONE switch on the protocol number serves both IP versions: protocol 1 tests type 0,
-     protocol 58 tests type 129, whatever the EtherType was;
-   * ICMP.IsValid and ICMPEcho.IsValid are both len >= 8; code and checksum are not looked at;
+     PayloadLen+40 <= len (trailing bytes allowed) — the version nibble is not checked there;
+   * icmpFrame = frame.Payload() = ether[14+IHL:] resp. ether[54:] extends to the end of the
+     Ethernet frame; ICMP.IsValid and ICMPEcho.IsValid are both len >= 8; code and checksum are
+     not looked at; ONE switch on the protocol number serves both IP versions;
+   * echoNotify is called (since the three repairs of this cluster in Session.Parse) only when
+       protocol 1:  type 0   && the frame is IPv4 (offsetIP4 != 0) && len(IP4.Payload()) >= 8
+                             && IP4.Version() == 4       (IP4.Payload() = ip4[IHL:TotalLen])
+       protocol 58: type 129 && the frame is IPv6 (offsetIP6 != 0) && len(IP6.Payload()) >= 8
+                             && IP6.Version() == 6       (IP6.Payload() = ip6[40:40+PayloadLen])
    * the id is the big-endian uint16 at offset 4 of the ICMP message. *)
 From PV Require Import Base.Prelude Base.Slice.
 Open Scope N_scope.
@@ -27,13 +30,16 @@ Definition IPPROTO_ICMPV6 : N := 58.
 Definition ICMP4TypeEchoReply : N := 0.
 Definition ICMP6TypeEchoReply : N := 129.
 
-(* the shared protocol switch, restricted to the two ICMP cases; [icmp] = frame.Payload() *)
-Definition icmp_notify (proto : N) (icmp : slice) : res (option N) :=
+(* the shared protocol switch, restricted to the two ICMP cases; [icmp] = frame.Payload();
+   [is4] = the frame is IPv4; [guard] = len(IPx.Payload()) >= 8 && IPx.Version() == x for the IP
+   version of the frame *)
+Definition icmp_notify (proto : N) (is4 guard : bool) (icmp : slice) : res (option N) :=
   if (proto =? IPPROTO_ICMP) || (proto =? IPPROTO_ICMPV6) then
     if Nat.ltb (len icmp) 8 then Ok None                    (* ICMP.IsValid: ErrFrameLen *)
     else
       (t <- idx icmp 0 ;;
-       if t =? (if proto =? IPPROTO_ICMP then ICMP4TypeEchoReply else ICMP6TypeEchoReply) then
+       if (t =? (if proto =? IPPROTO_ICMP then ICMP4TypeEchoReply else ICMP6TypeEchoReply))
+          && Bool.eqb is4 (proto =? IPPROTO_ICMP) && guard then
          if Nat.ltb (len icmp) 8 then Ok None               (* ICMPEcho.IsValid *)
          else (i <- be16_at icmp 4 ;; Ok (Some i))          (* echoNotify(echo.EchoID()) *)
        else Ok None)%res
@@ -59,17 +65,18 @@ Definition parse_notify_s (ether : slice) : res (option N) :=
            else
              proto <- idx ip4 9 ;;
              icmp <- slfrom ether (14 + ihl) ;;
-             icmp_notify proto icmp
+             icmp_notify proto true (Nat.leb 8 (N.to_nat tl - ihl) && (N.shiftr b0 4 =? 4)) icmp
        else if et =? ETH_P_IPV6 then
          ip6 <- slfrom ether 14 ;;
          if Nat.ltb (len ip6) 40 then Ok None
          else
+           b0 <- idx ip6 0 ;;
            pl <- be16_at ip6 4 ;;
            if Nat.ltb (len ip6) (N.to_nat pl + 40) then Ok None
            else
              proto <- idx ip6 6 ;;
              icmp <- slfrom ether 54 ;;
-             icmp_notify proto icmp
+             icmp_notify proto false (Nat.leb 8 (N.to_nat pl) && (N.shiftr b0 4 =? 6)) icmp
        else Ok None)%res.
 
 (* Parse is called with a slice whose capacity equals its length (the harness copies the frame) *)
